@@ -21,15 +21,18 @@ import (
 )
 
 type hevcConfCase struct {
-	VPS           nalgen.HEVCVPSTree   `json:"vps"`
-	SPS           nalgen.HEVCSPSTree   `json:"sps"`
-	PPS           []nalgen.HEVCPPSTree `json:"pps"`
-	SampleEntry   string               `json:"sample_entry"` // hvc1 | hev1
-	IncludePS     bool                 `json:"include_ps"`
-	VpsComplete   bool                 `json:"vps_complete"`
-	SpsComplete   bool                 `json:"sps_complete"`
-	PpsComplete   bool                 `json:"pps_complete"`
-	RelaxInterRPS bool                 `json:"relax_inter_rps,omitempty"`
+	VPS nalgen.HEVCVPSTree   `json:"vps"`
+	SPS nalgen.HEVCSPSTree   `json:"sps"` // the FIRST SPS: the record's general_* / chroma / bit depth fields come from it
+	PPS []nalgen.HEVCPPSTree `json:"pps"`
+	// VPS2 / SPS2: a second VPS / SPS handed to the record constructors behind the first one (absent: one of each).
+	VPS2          *nalgen.HEVCVPSTree `json:"vps2,omitempty"`
+	SPS2          *nalgen.HEVCSPSTree `json:"sps2,omitempty"`
+	SampleEntry   string              `json:"sample_entry"` // hvc1 | hev1
+	IncludePS     bool                `json:"include_ps"`
+	VpsComplete   bool                `json:"vps_complete"`
+	SpsComplete   bool                `json:"sps_complete"`
+	PpsComplete   bool                `json:"pps_complete"`
+	RelaxInterRPS bool                `json:"relax_inter_rps,omitempty"`
 }
 
 // hevcRefCodecString: ISO/IEC 14496-15 Annex E. <entry>.<space letter><profile idc>.<compatibility flags, bit
@@ -157,14 +160,35 @@ func hevcCheckConf(c hevcConfCase) *harness.Fail {
 	s := &c.SPS.SPS
 	ptl := &s.ProfileTierLevel
 	vps := [][]byte{nalgen.HEVCWriteVPS(&c.VPS)}
+	if c.VPS2 != nil {
+		vps = append(vps, nalgen.HEVCWriteVPS(c.VPS2))
+	}
 	spsNal, _ := nalgen.HEVCWriteSPS(&c.SPS)
 	spss := [][]byte{spsNal}
+	if c.SPS2 != nil {
+		// Which SPS of several the record's fields come from is not stated in the doc comment of
+		// CreateHEVCDecConfRec ("extract information from sps"); like its AVC sibling it reads spsNalus[0], and
+		// SetHEVCDescriptor takes the picture size from spsNALUs[0]. The oracle below therefore compares with the
+		// FIRST SPS; the second one must be carried verbatim and must itself parse to its tree.
+		nal2, _ := nalgen.HEVCWriteSPS(c.SPS2)
+		spss = append(spss, nal2)
+		parsed2, err := hevc.ParseSPSNALUnit(nal2)
+		if err != nil {
+			return harness.Failf("C15|hevc.ParseSPSNALUnit|error on a valid SPS", "%v (second SPS NAL %x)", err, nal2)
+		}
+		if f := hevcCompareSPS(c.SPS2, parsed2, c.RelaxInterRPS, fmt.Sprintf("second SPS NAL %x", nal2)); f != nil {
+			return f
+		}
+	}
 	var ppss [][]byte
 	for i := range c.PPS {
 		n, _ := nalgen.HEVCWritePPS(&c.PPS[i])
 		ppss = append(ppss, n)
 	}
 	ctx := fmt.Sprintf("SPS NAL %x", spsNal)
+	if c.SPS2 != nil {
+		ctx = fmt.Sprintf("first of two SPS NAL %x, second %x", spsNal, spss[1])
+	}
 	parsed, err := hevc.ParseSPSNALUnit(spsNal)
 	if err != nil {
 		return harness.Failf("C15|hevc.ParseSPSNALUnit|error on a valid SPS", "%v (%s)", err, ctx)
@@ -385,12 +409,23 @@ func hevcCheckConf(c hevcConfCase) *harness.Fail {
 
 func TestHEVCConf(t *testing.T) {
 	harness.RunRapid(t, "conf", func(rt *rapid.T) {
-		vps, sps, ppss := esgen.HEVCGenConfSets(rt)
-		c := hevcConfCase{SPS: *sps, VPS: *vps, PPS: ppss}
+		vpss, spss, ppss := esgen.HEVCGenConfSetsMulti(rt)
+		sps := &spss[0]
+		c := hevcConfCase{SPS: spss[0], VPS: vpss[0], PPS: ppss}
+		if len(vpss) > 1 {
+			c.VPS2 = &vpss[1]
+		}
+		if len(spss) > 1 {
+			c.SPS2 = &spss[1]
+		}
 		c.SampleEntry = rapid.SampledFrom([]string{"hvc1", "hev1"}).Draw(rt, "entry")
 		c.IncludePS = rapid.Bool().Draw(rt, "include")
 		c.VpsComplete, c.SpsComplete, c.PpsComplete = rapid.Bool().Draw(rt, "vc"), rapid.Bool().Draw(rt, "sc"), rapid.Bool().Draw(rt, "pc")
-		c.RelaxInterRPS = hevcRelaxFor(sps)
+		if c.SPS2 != nil {
+			c.RelaxInterRPS = hevcRelaxFor(sps, c.SPS2)
+		} else {
+			c.RelaxInterRPS = hevcRelaxFor(sps)
+		}
 		ptl := &sps.SPS.ProfileTierLevel
 		classes := []string{"hevc-conf-" + c.SampleEntry}
 		add := func(b bool, name string) {
@@ -408,7 +443,33 @@ func TestHEVCConf(t *testing.T) {
 		add(sps.SPS.BitDepthLumaMinus8 != 0 || sps.SPS.BitDepthChromaMinus8 != 0, "hevc-conf-bitdepth-not-8")
 		add(sps.SPS.BitDepthLumaMinus8 == 8 || sps.SPS.BitDepthChromaMinus8 == 8, "hevc-conf-bitdepth-16-not-representable-in-record")
 		add(sps.SPS.ConformanceWindowFlag, "hevc-conf-cropping")
-		add(len(c.PPS) > 1, "hevc-conf-two-pps")
+		add(len(c.PPS) == 2, "hevc-conf-two-pps")
+		add(len(c.PPS) == 3, "hevc-conf-three-pps")
+		add(c.VPS2 != nil, "hevc-conf-two-vps")
+		if c.SPS2 != nil {
+			// what a record built from the wrong (second) SPS would get wrong
+			s2, p2 := &c.SPS2.SPS, &c.SPS2.SPS.ProfileTierLevel
+			add(true, "hevc-conf-two-sps")
+			add(s2.PicWidthInLumaSamples == sps.SPS.PicWidthInLumaSamples && s2.ChromaFormatIDC == sps.SPS.ChromaFormatIDC &&
+				s2.BitDepthLumaMinus8 == sps.SPS.BitDepthLumaMinus8, "hevc-conf-sps2-same-picture-format")
+			add(p2.GeneralProfileSpace != ptl.GeneralProfileSpace, "hevc-conf-sps2-profile-space-differs")
+			add(p2.GeneralTierFlag != ptl.GeneralTierFlag, "hevc-conf-sps2-tier-differs")
+			add(p2.GeneralProfileIDC != ptl.GeneralProfileIDC, "hevc-conf-sps2-profile-idc-differs")
+			add(p2.GeneralProfileCompatibilityFlags != ptl.GeneralProfileCompatibilityFlags, "hevc-conf-sps2-compatibility-differs")
+			add(p2.GeneralConstraintIndicatorFlags != ptl.GeneralConstraintIndicatorFlags, "hevc-conf-sps2-constraint-flags-differ")
+			add(p2.GeneralLevelIDC != ptl.GeneralLevelIDC, "hevc-conf-sps2-level-differs")
+			add(s2.ChromaFormatIDC != sps.SPS.ChromaFormatIDC, "hevc-conf-sps2-chroma-differs")
+			add(s2.BitDepthLumaMinus8 != sps.SPS.BitDepthLumaMinus8 || s2.BitDepthChromaMinus8 != sps.SPS.BitDepthChromaMinus8, "hevc-conf-sps2-bitdepth-differs")
+			w1, h1 := hevcCroppedSize(&sps.SPS)
+			w2, h2 := hevcCroppedSize(s2)
+			add(w1 != w2 || h1 != h2, "hevc-conf-sps2-picture-size-differs")
+			for i := range c.PPS {
+				if c.PPS[i].PPS.SeqParameterSetID == uint32(s2.SpsID) {
+					add(true, "hevc-conf-pps-refers-to-sps2")
+					break
+				}
+			}
+		}
 		raw, _ := json.Marshal(c)
 		harness.Rec.Case(len(classes) > 1, raw, classes...)
 		if harness.Rec.WantSample() {
